@@ -29,6 +29,41 @@ func runC12(c *Check, tier string) {
 		}
 	}
 	ruleR12e(c)
+	ruleR12f(c)
+}
+
+// R12f: the platform predicate is exact membership.
+func ruleR12f(c *Check) {
+	c.Rule("R12f", "the platform predicate compares the host platform with the target's platform selectors by equality / slices.Contains only (no prefix, substring or pattern matching: `linux/arm` must not match a `linux/arm64` host)", 1)
+	found := false
+	for _, fn := range c.P.Funcs {
+		if !engine.InPackage(fn, "selection") || fn.Parent() != nil {
+			continue
+		}
+		if !readsField(c, fn, fk("model.Target", "Platforms")) {
+			continue
+		}
+		found = true
+		reach := c.G.ReachableFuncs([]*ssa.Function{fn}, func(f *ssa.Function) bool { return !engine.InPackage(f, "selection") })
+		var bad []string
+		for f := range reach {
+			if !engine.InPackage(f, "selection") {
+				continue
+			}
+			for _, s := range engine.SitesIn(f) {
+				n := engine.CalleeName(s)
+				switch n {
+				case "strings.HasPrefix", "strings.HasSuffix", "strings.Contains", "strings.EqualFold", "strings.Index", "path.Match", "path/filepath.Match", "strings.ContainsAny", "(*regexp.Regexp).MatchString", "regexp.MatchString":
+					bad = append(bad, n+" at "+c.P.InstrPos(s))
+				}
+			}
+		}
+		sort.Strings(bad)
+		c.Require(len(bad) == 0, "R12f", "platform-exact-match/"+c.P.FuncName(fn), "platform selectors are compared by equality only", "platform selectors are matched loosely ("+strings.Join(bad, ", ")+"): a selector can match a different platform that merely shares a prefix/substring, so an incompatible target is selected (and an incompatible dependency is not reported)", c.P.Pos(fn.Pos()))
+	}
+	if !found {
+		c.Unknown("R12f", "platform-exact-match", "anchor-unresolved: no function in internal/selection reads Target.Platforms", "-")
+	}
 }
 
 func ruleR12a(c *Check) {
